@@ -47,6 +47,8 @@ type syncEnv struct {
 	violations   []string
 	start        int
 	stallOrphans bool
+	slowHash     Hash
+	slowUsed     bool
 }
 
 func (e *syncEnv) log(kind string, h Hash, note string) {
@@ -59,6 +61,10 @@ func (e *syncEnv) RequestBlock(ctx context.Context, hash Hash, handler bitcoin_r
 	ht, known := e.height[hash]
 	beh := e.plan(e.nreq)
 	e.nreq++
+	if hash == e.slowHash && !e.slowUsed && (e.slowHash != Hash{}) {
+		e.slowUsed = true
+		beh = "slow10s"
+	}
 	if e.stallOrphans && known && !(ht < len(e.bestNow) && e.bestNow[ht] == hash) {
 		beh = "never" // the block left the best chain: no peer serves it any more
 	}
@@ -111,6 +117,9 @@ func (e *syncEnv) RequestBlock(ctx context.Context, hash Hash, handler bitcoin_r
 		r := rand.New(rand.NewSource(seed))
 		if beh == "slow" {
 			time.Sleep(time.Duration(1+r.Intn(6)) * time.Millisecond)
+		}
+		if beh == "slow10s" {
+			time.Sleep(10600 * time.Millisecond)
 		}
 		ch := make(chan *wire.MsgTx, 1000)
 		stopFeed := make(chan struct{})
@@ -176,7 +185,7 @@ func waitIdle(m *bitcoin_reader.NodeManager, d time.Duration) (idle bool, runnin
 	return false, r, p
 }
 
-func c05Case(ctx context.Context, run *common.Run, obs *c05obs, idx int, orphan bool) {
+func c05Case(ctx context.Context, run *common.Run, obs *c05obs, idx int, orphan bool, slow10 bool) {
 	rng := common.Rng(run.Seed, int64(500000+idx))
 	L := 1 + rng.Intn(30)
 	conc := 1
@@ -265,11 +274,34 @@ func c05Case(ctx context.Context, run *common.Run, obs *c05obs, idx int, orphan 
 	case 4: // one block somewhere
 		pre[rng.Intn(L+1)] = true
 	}
-	for h := range pre {
-		env.btm.Blocks[env.bestNow[h]] = nil
+	if !slow10 {
+		for h := range pre {
+			env.btm.Blocks[env.bestNow[h]] = nil
+		}
 	}
 	// failure plan
 	faulty := rng.Intn(3) != 0
+	if slow10 {
+		// one block's transactions arrive only after the reader's 10 s orphan poll has fired; the
+		// walk back ends at an already processed block
+		faulty = false
+		for h := range pre {
+			delete(pre, h)
+		}
+		k := start + rng.Intn(max1(L-start, 1))
+		if k > L-1 {
+			k = L - 1
+		}
+		for h := 0; h <= k; h++ {
+			pre[h] = true
+		}
+		for h := range pre {
+			env.btm.Blocks[env.bestNow[h]] = nil
+		}
+		if k+1 <= L {
+			env.slowHash = env.bestNow[k+1+rng.Intn(L-k)]
+		}
+	}
 	planSeed := rng.Int63()
 	consecutiveNA := 0
 	env.plan = func(n int) string {
@@ -399,6 +431,25 @@ func c05Case(ctx context.Context, run *common.Run, obs *c05obs, idx int, orphan 
 		env.mu.Unlock()
 		viol("bounded-progress", "sync-round-does-not-end/"+bmState, fmt.Sprintf("synchronisation still running 40 s after the last fault (running=%v pending=%v) %s requests=%v", running, pending, bmState, tail))
 		return
+	}
+	// a fault-free round runs to the tip: nothing may be left for a later trigger
+	if idle && !faulty && extra == 0 && !orphan && conc == 1 {
+		env.mu.Lock()
+		tipNow := len(env.bestNow) - 1
+		var left []int
+		if tipNow >= start && !pre[tipNow] {
+			for h := tipNow; h >= start && !pre[h]; h-- {
+				if !env.btm.Has(env.bestNow[h]) {
+					left = append(left, h)
+				}
+			}
+		}
+		env.mu.Unlock()
+		if len(left) > 0 {
+			viol("processes-up-to-the-tip", fmt.Sprintf("round-ended-before-the-tip/slow-block=%v", slow10),
+				fmt.Sprintf("no source failures, yet after the round heights %v are unprocessed", left))
+			return
+		}
 	}
 	// final trigger after faults stopped
 	faulty = false
@@ -595,14 +646,22 @@ func RunC05(tier string, seed int64) int {
 	run.Rule = "real NodeManager (startup delay marked complete by hook, not dialling) + real header repository + real BlockManager.Run + scripted block source (deliver, slow, wrong block, drop mid-block, node-not-available < 20 polls) over chains of 1-30 blocks, start height in {0,1,mid,tip-1,tip,tip+1}, arbitrary already-processed sets, headers arriving mid-round with re-trigger, 1 (90%) or 2-3 concurrent downloads; orphan slice: a heavier fork overtakes while requests are pending. Oracle on the recorded request/processing log: never below start, never already processed, only best-chain blocks, parent->child order, first request position, at most once, and everything processed after the final trigger. distinct = scenario descriptors"
 	run.Assumptions = []string{"round boundaries are observed through the VerifBlockSyncState hook; a round that is still running 40 s after the last fault is a violation for non-orphan cases and inconclusive for orphan cases (the code re-checks orphaned requests on a 10 s timer)",
 		"hook-only: markStartupDelayComplete is invoked through the verif-tagged accessor instead of waiting for the startup timer"}
-	n, no := 3000, 8
+	n, no, ns := 3000, 8, 6
 	if tier == "thorough" {
-		n, no = 40000, 200
+		n, no, ns = 40000, 200, 100
 	}
 	obs := &c05obs{}
 	_ = hdr.RefMerkleRoot
-	common.ParallelFor(n, runtime.NumCPU()*2, func(i int) { c05Case(ctx, run, obs, i, false) })
-	common.ParallelFor(no, 32, func(i int) { c05Case(ctx, run, obs, 1000000+i, true) })
+	common.ParallelFor(n+no+ns, runtime.NumCPU()*2, func(i int) {
+		switch {
+		case i < no:
+			c05Case(ctx, run, obs, 1000000+i, true, false)
+		case i < no+ns:
+			c05Case(ctx, run, obs, 2000000+i, false, true)
+		default:
+			c05Case(ctx, run, obs, i-no-ns, false, false)
+		}
+	})
 	run.Extra("observed", map[string]int64{"scenarios": obs.cases, "block_requests": obs.requests, "blocks_processed": obs.processed,
 		"orphan_scenarios": obs.orphanCases, "restart_flag_set_while_no_round_running": obs.lostTrigger})
 	return run.Finish()
@@ -613,4 +672,11 @@ func concFeature(conc int) string {
 		return "/concurrent-downloads>1"
 	}
 	return "/concurrent-downloads=1"
+}
+
+func max1(a, b int) int {
+	if a > b {
+		return a
+	}
+	return b
 }
